@@ -510,11 +510,12 @@ def replay_groups(ck, groups, vfn, procs=4, serial_below=60000) -> int:
     finally:
         _SHARED.clear()
     total = 0
-    for ran, fails in results:
-        total += ran
-        for f in fails:
-            ck.fail(f)
-    ck.impl += total
+    with _LOCK:
+        for ran, fails in results:
+            total += ran
+            for f in fails:
+                ck.fail(f)
+        ck.impl += total
     return total
 
 
